@@ -1169,7 +1169,7 @@ func c1Separators(c *Ctx, rule string) {
 		recv := fn.Params[0]
 		isDirectWrite := func(i ssa.Instruction) bool {
 			for _, o := range encBufCalls(c, fn) {
-				if ssa.Instruction(o.call) == i && isMutatingBufMethod(o.m) && Desc(Args(o.call)[0]) == recv.Name()+".buf" {
+				if ssa.Instruction(o.call) == i && isMutatingBufMethod(o.m) && Desc(Args(o.call)[0]) == PN(recv)+".buf" {
 					return true
 				}
 			}
